@@ -49,6 +49,11 @@ var pkgs = []pkgSpec{
 
 var fset = token.NewFileSet()
 
+// glue: functions executed only by the discipline's own goroutines or called by the user -
+// the steppers call around them, never through them
+var glue = map[string]bool{"main": true, "loop": true, "loopUntimeouted": true, "transfer": true, "handler": true,
+	"gracefulStop": true, "Stop": true, "GracefulStop": true, "Release": true, "AddInput": true, "RemoveInput": true}
+
 func text(n ast.Node) string {
 	var b bytes.Buffer
 	printer.Fprint(&b, fset, n)
@@ -76,7 +81,7 @@ func lbool(b bool) string {
 }
 
 type out struct {
-	spawns, defers, methods, selects, ctors, ranges, spawners, chanmakes []string
+	spawns, defers, methods, selects, ctors, ranges, spawners, chanmakes, callseq []string
 }
 
 func recvInfo(fd *ast.FuncDecl) (name string, typ string) {
@@ -151,6 +156,45 @@ func process(repo string, p pkgSpec, o *out) error {
 		}
 		rname, rtyp := recvInfo(fd)
 		fname := lstr(rtyp) + ", " + lstr(fd.Name.Name)
+
+		// callseq: for the glue functions that no stepper executes (the goroutine bodies and the
+		// API methods), the calls made through the receiver, in source order, with their
+		// argument text, plus the control skeleton around them
+		if glue[fd.Name.Name] && rname != "" {
+			var seq []string
+			ast.Inspect(fd.Body, func(n ast.Node) bool {
+				switch x := n.(type) {
+				case *ast.FuncLit:
+					seq = append(seq, "func{")
+				case *ast.ForStmt, *ast.RangeStmt:
+					seq = append(seq, "for")
+				case *ast.IfStmt:
+					seq = append(seq, "if "+text(x.Cond))
+				case *ast.ReturnStmt:
+					seq = append(seq, "return")
+				case *ast.CallExpr:
+					root := x.Fun
+					for {
+						if se, ok := root.(*ast.SelectorExpr); ok {
+							root = se.X
+							continue
+						}
+						break
+					}
+					if id, ok := root.(*ast.Ident); ok && (id.Name == rname || id.Name == "time") {
+						seq = append(seq, text(x))
+					}
+				case *ast.SendStmt:
+					seq = append(seq, text(x))
+				case *ast.UnaryExpr:
+					if x.Op == token.ARROW {
+						seq = append(seq, text(x))
+					}
+				}
+				return true
+			})
+			o.callseq = append(o.callseq, fmt.Sprintf("(%s, %s, %s, %s)", lstr(p.key), lstr(rtyp), lstr(fd.Name.Name), llist(seq)))
+		}
 
 		// spawns, defers, selects, ranges: walk with loop depth
 		var deferred []string
@@ -408,6 +452,7 @@ func main() {
 	b.WriteString(emit("ctors", "String × String × List (String × String)", o.ctors))
 	b.WriteString(emit("spawners", "String × String × String × List (String × String)", o.spawners))
 	b.WriteString(emit("chanmakes", "String × String × String × String", o.chanmakes))
+	b.WriteString(emit("callseq", "String × String × String × List String", o.callseq))
 	b.WriteString(emit("ranges", "String × String × String × String", o.ranges))
 	b.WriteString("end Cqos.Facts\n")
 
